@@ -17,6 +17,10 @@ pub struct Case {
     pub history: Vec<String>,
     pub program: String,
     pub insn_limit: usize,
+    /// data-stack limit armed on every party before the program: current depth + this
+    pub stack_slack: Option<usize>,
+    /// heap limit armed on every party before the program: current heap length + this
+    pub heap_slack: Option<usize>,
 }
 
 pub struct Drive;
@@ -61,6 +65,13 @@ fn drive(case: &Case, mode: Mode, rec: bool, st: Option<&mut Stats>) -> Driven {
         xs.set_recording_enabled(true);
     }
     xs.set_insn_limit(Some(case.insn_limit)).unwrap();
+    // the same faults for every party: a full stack or heap at the same absolute size
+    if let Some(k) = case.stack_slack {
+        xs.set_stack_limit(Some(xs.verif_data_len() + k)).unwrap();
+    }
+    if let Some(k) = case.heap_slack {
+        xs.set_heap_limit(Some(xs.verif_heap_len() + k)).unwrap();
+    }
     let mut steps = 0u64;
     let result: Xresult = match mode {
         Mode::Eval => xs.eval(&case.program),
@@ -153,20 +164,34 @@ impl Engine for Drive {
             let (src, st2) = g.source(n, &stack);
             let env2 = g.env.clone();
             let snapshot = twin.clone();
-            if twin.eval(&src).is_ok() {
+            let r = twin.eval(&src);
+            if r.is_ok() {
                 history.push(src);
                 env = env2;
                 stack = st2;
             } else {
-                twin = snapshot;
-                env.counter = env2.counter;
+                // "idle" also means: an earlier line failed and left nothing of itself running
+                // (no frames, loop records, builder marks or pending structures)
+                let d = twin.verif_dump();
+                let clean = d.frames.is_empty() && d.loops.is_empty() && d.special.is_empty() && d.flows.is_empty() && d.nested.is_empty() && !twin.is_running();
+                if clean && rng.chance(1, 2) {
+                    history.push(src);
+                    // what it defined before failing is unknown to the generator: keep the old names
+                    env.counter = env2.counter;
+                    stack = Vec::new();
+                } else {
+                    twin = snapshot;
+                    env.counter = env2.counter;
+                }
             }
         }
         let n = 3 + rng.below(60);
         let mut g = Gen::new(rng, f, env, "p");
         let (program, _) = g.source(n, &stack);
         let insn_limit = *rng.pick(&[50usize, 500, 5000, 5000, 5000]);
-        Case { input, intercept_emit, rec_from_boot, history, program, insn_limit }
+        let stack_slack = if rng.chance(1, 4) { Some(rng.below(7)) } else { None };
+        let heap_slack = if rng.chance(1, 8) { Some(rng.below(3)) } else { None };
+        Case { input, intercept_emit, rec_from_boot, history, program, insn_limit, stack_slack, heap_slack }
     }
 
     fn execute(case: &Case, st: &mut Stats) -> Outcome {
@@ -187,6 +212,12 @@ impl Engine for Drive {
         }
         if outs[0].result.contains("insn limit") {
             st.count("fault.watchdog_insn_limit");
+        }
+        if outs[0].result.contains("stack limit reached") {
+            st.count("fault.stack_limit_trip");
+        }
+        if outs[0].result.contains("heap limit reached") {
+            st.count("fault.heap_limit_trip");
         }
         if outs[0].result.contains("resumed:") {
             st.count("fault.paused_by_insn_limit_then_resumed");
@@ -251,6 +282,16 @@ impl Engine for Drive {
             c.rec_from_boot = false;
             out.push(c);
         }
+        if case.stack_slack.is_some() {
+            let mut c = case.clone();
+            c.stack_slack = None;
+            out.push(c);
+        }
+        if case.heap_slack.is_some() {
+            let mut c = case.clone();
+            c.heap_slack = None;
+            out.push(c);
+        }
         out
     }
 
@@ -261,7 +302,9 @@ impl Engine for Drive {
             "rec_from_boot" => c.rec_from_boot,
             "history" => strs(&c.history),
             "program" => c.program.clone(),
-            "insn_limit" => c.insn_limit
+            "insn_limit" => c.insn_limit,
+            "stack_slack" => c.stack_slack,
+            "heap_slack" => c.heap_slack
         }
     }
 
@@ -273,6 +316,8 @@ impl Engine for Drive {
             history: json_strs(j, "history")?,
             program: j.f_str("program")?,
             insn_limit: j.f_usize("insn_limit")?,
+            stack_slack: j.get("stack_slack").and_then(|x| x.int()).map(|x| x as usize),
+            heap_slack: j.get("heap_slack").and_then(|x| x.int()).map(|x| x as usize),
         })
     }
 }
